@@ -9,6 +9,7 @@ func C14(p *core.Prog, r *core.Report) {
 	Key78(p, r)
 	Key9(p, r)
 	Key10(p, r)
+	Key11(p, r)
 	TryCacheRules(p, r)
 	Tee(p, r)
 	Commit(p, r)
